@@ -69,9 +69,9 @@ func (r *Rand) Range(lo, hi int) int {
 	return lo + r.Intn(hi-lo+1)
 }
 
-func (r *Rand) Bool() bool          { return r.U64()&1 == 1 }
+func (r *Rand) Bool() bool            { return r.U64()&1 == 1 }
 func (r *Rand) Chance(p float64) bool { return r.Float() < p }
-func (r *Rand) Float() float64      { return float64(r.U64()>>11) / float64(1<<53) }
+func (r *Rand) Float() float64        { return float64(r.U64()>>11) / float64(1<<53) }
 
 func (r *Rand) Bytes(n int) []byte {
 	b := make([]byte, n)
@@ -204,6 +204,12 @@ func NewCtx(prop, level string) *Ctx {
 		c.Inconclusive("known_findings.json unreadable: " + err.Error())
 	}
 	c.findings = ff
+	// stale witnesses of an earlier run with the same tier/seed would be misleading
+	if old, _ := filepath.Glob(filepath.Join(VerifRoot(), "replay", prop, fmt.Sprintf("%s-seed%d-*.json", tier, seed))); len(old) > 0 {
+		for _, p := range old {
+			_ = os.Remove(p)
+		}
+	}
 	return c
 }
 
